@@ -103,11 +103,13 @@ class Monitor:
         self.applied_at = {}       # index -> (cid, node)
         self.last_applied = {}     # node -> index
         self.futures = []          # [future, cid, node name, done]
+        self.pending_applies = []  # applies seen inside the current handler, judged after it
         self.first_commit_seen = False
         self.leader_changes_after_commit = 0
         self.terms_with_leader = set()
         self.longer_peer = False     # some node became leader while a peer held a longer log
         self.n_deliver = 0
+        self.stale_acks = 0        # success acks of an earlier term delivered to a leader (label / target only)
         self.n_crashed_drop = 0
 
     # ------------------------------------------------------------------ plumbing
@@ -198,7 +200,7 @@ class Monitor:
                                  f"{src} answered AppendEntries(term {rec['term']}, prev {rec['prev']}, "
                                  f"{rec['n']} entries) of leader {dst} with match_index={m}, but its log "
                                  f"differs from the leader's at index {k + 1} "
-                                 f"(follower {mine[k:k + 1]}, leader {ls.ents[k:k + 1]})", code="r3ack")
+                                 f"(follower {mine[k:k + 1]}, leader {ls.ents[k:k + 1]})", code="overclaim")
 
     def vote(self, voter, term, cand):
         lst = self.votes.setdefault((voter, term), [])
@@ -242,20 +244,14 @@ class Monitor:
             if old.state == L and md.get("success") and md.get("from") is not None:
                 fl = dict(self.ack_flags.get(id(md), (None, {}))[1])
                 fl["stale"] = md.get("term") != old.term or fl.get("ae_term") not in (None, old.term)
+                if fl["stale"] and md.get("match_index", 0):
+                    self.stale_acks += 1
                 d = self.told.setdefault((name, old.term), {})
                 d[md["from"]] = (md.get("match_index", 0), fl)
 
         # ---- r4: terms and commit index never decrease
         if new.term < old.term:
-            self.add("r4-term-decreased", f"{name}: term {old.term} -> {new.term} on {typ}", code="r4term")
-        if new.commit < old.commit:
-            self.derived("r4-commit-index-decreased", f"{name}: commit_index {old.commit} -> {new.commit} on {typ}")
-        # ---- a committed entry never disappears from / changes in the log of the node that committed it
-        if new.ents[:old.commit] != old.ents[:old.commit]:
-            k = next((i for i in range(old.commit) if new.ents[i:i + 1] != old.ents[i:i + 1]), 0)
-            self.derived("committed-entry-removed-or-replaced",
-                     f"{name}: committed entry {k + 1} {old.ents[k:k + 1]} became {new.ents[k:k + 1]} on {typ} "
-                     f"from {src}")
+            self.add("r4-term-decreased", f"{name}: term {old.term} -> {new.term} on {typ}", code="termback")
         # ---- r1: a leader never deletes or overwrites entries of its own log
         if old.state == L and new.state == L and old.term == new.term and new.ents[:len(old.ents)] != old.ents:
             self.add("r1-leader-log-not-append-only", f"{name} term {new.term}: {old.ents} -> {new.ents} on {typ}",
@@ -270,6 +266,15 @@ class Monitor:
         # ---- r3: leader commit rule
         if new.state == L and new.commit > old.commit:
             self.check_leader_commit(name, old, new, typ)
+        # ---- statement-level clauses on this node's own transition (after the mechanism-level ones)
+        if new.commit < old.commit:
+            self.derived("r4-commit-index-decreased", f"{name}: commit_index {old.commit} -> {new.commit} on {typ}")
+        # ---- a committed entry never disappears from / changes in the log of the node that committed it
+        if new.ents[:old.commit] != old.ents[:old.commit]:
+            k = next((i for i in range(old.commit) if new.ents[i:i + 1] != old.ents[i:i + 1]), 0)
+            self.derived("committed-entry-removed-or-replaced",
+                     f"{name}: committed entry {k + 1} {old.ents[k:k + 1]} became {new.ents[k:k + 1]} on {typ} "
+                     f"from {src}")
         self.after_change(name, old, new, typ)
 
     def after_change(self, name, old, new, typ):
@@ -290,6 +295,7 @@ class Monitor:
                     vb = set(self.grants_delivered.get((b, new.term), ())) | {b}
                     self.derived("two-leaders-in-one-term",
                                  f"term {new.term}: {a} (voters {sorted(va)}) and {b} (voters {sorted(vb)})")
+        self.flush_applies()
         log_changed = new.ents != old.ents
         # ---- log matching
         if log_changed:
@@ -367,13 +373,13 @@ class Monitor:
     def check_leader_commit(self, name, old, new, typ):
         n = new.commit
         if n > len(new.ents):
-            self.add("r3-commit-index-beyond-log", f"{name}: commit_index {n}, log length {len(new.ents)}", code="r3")
+            self.add("r3-commit-index-beyond-log", f"{name}: commit_index {n}, log length {len(new.ents)}", code="commitrule")
             return
         e = new.ents[n - 1]
         if e[0] != new.term:
             self.add("r3-leader-committed-entry-of-older-term-by-counting",
                      f"leader {name} of term {new.term} advanced commit_index {old.commit} -> {n}; entry {n} "
-                     f"has term {e[0]}", code="r3term")
+                     f"has term {e[0]}", code="oldterm")
         holders = [y for y, s in self.prev.items() if s.ents[n - 1:n] == (e,)]
         if len(holders) < self.quorum:
             told = self.told.get((name, new.term), {})
@@ -390,13 +396,24 @@ class Monitor:
                      f"leader {name} term {new.term} committed index {n} {e}; logs holding it: {holders} "
                      f"(quorum {self.quorum}); acks it had: "
                      f"{ {f: (v[0], [k for k in ('overclaim', 'stale') if v[1].get(k)]) for f, v in sorted(told.items())} }",
-                     code=None if cls == "overclaimed-ack" else "r3")
+                     code=None if cls == "overclaimed-ack" else "commitrule")
 
     # ------------------------------------------------------------------ applies (called from inside handlers)
     def on_apply(self, name, command):
+        """Called from inside the handler.  Only records (the index is looked up in the log as it is right now); the
+        judgement is made after the mechanism-level clauses of the same event (flush_applies), so that a break they
+        explain is filed as their consequence."""
         node = self.nodes[name]
         c = cid(command)
         idx = next((e.index for e in node.log.entries_after(0) if cid(e.command) == c), None)
+        self.pending_applies.append((name, c, idx))
+
+    def flush_applies(self):
+        todo, self.pending_applies = self.pending_applies, []
+        for name, c, idx in todo:
+            self.judge_apply(name, c, idx)
+
+    def judge_apply(self, name, c, idx):
         if idx is None:
             self.derived("applied-command-not-in-own-log", f"{name} applied {c!r}")
             return
@@ -458,7 +475,7 @@ def safety_strategy(faults=True):
             "timeouts": st.lists(TIMEOUT_DRAWS, max_size=30),
             "net": netsched.net_strategy(delay_values=DELAYS, max_delays=160 if big else 100, loss=faults,
                                          max_parts=3 if faults else 0, max_crashes=2 if faults else 0,
-                                         t_max=t_max, dur_max=1500),
+                                         t_max=t_max, dur_max=1500, max_slow=2 if faults else 0),
             "submits": st.lists(st.fixed_dictionaries({"t": st.integers(100, t_max), "node": st.integers(0, 4),
                                                        "leader": st.sampled_from([True, True, False])}),
                                 max_size=14),
@@ -540,6 +557,7 @@ def ex_safety(obl):
             for x in nodes:
                 sim.schedule(x.start())
             status = probe.run()
+        mon.flush_applies()
         if status == "spin":
             r.add(f"{P}/{obl}/spin-at-one-instant", f"more than 20000 events at t={probe.spin_at} ns")
         elif status == "budget":
@@ -561,11 +579,40 @@ def ex_safety(obl):
         if any(f[3] for f in mon.futures):
             r.labels.append("future-resolved")
         pairs = sum(len(v) for v in mon.leaders.values())
-        r.target = float(pairs + 2 * mon.leader_changes_after_commit + min(len(mon.committed), 5))
+        if mon.stale_acks:
+            r.labels.append("stale-ack-delivered-to-leader")
+        r.target = float(pairs + 2 * mon.leader_changes_after_commit + min(len(mon.committed), 5)
+                         + 3 * min(mon.stale_acks, 4))
         r.observed = {"events": probe.n, "leaders": {str(k): v for k, v in sorted(mon.leaders.items())},
                       "committed": len(mon.committed), "submits": n_sub}
         return r
     return execute
+
+
+# =========================================================================================== regain obligation
+def make_regain(seed, crash, k, t_p1, heal, t_crash, t_p2, t_d, slow, fast, extra, back):
+    """A *directed* schedule family (jittered template, see the rule text): the first leader n0 is cut off with n1
+    while n1's answers to it crawl; the majority elects a new leader whose entry overwrites n0's log; that leader
+    crashes; if n0 regains the leadership it is cut off with a single follower k while the late answers arrive."""
+    # back > 0: the crashed leader comes back `back` ms after the second partition started, so the other side regains a
+    # quorum and can commit something else at the contested index
+    return {"n": 5, "hb": 40, "eto": [150, 150], "T": t_d + (2700 if back else 1900), "timeouts": [0, 500, 300, 900, 900],
+            "net": {"delays": [fast], "loss": [], "seed": seed,
+                    "parts": [{"t": t_p1, "dur": heal - t_p1, "mask": 3}, {"t": t_p2, "dur": 3500, "mask": 1 | (1 << k)}],
+                    "crashes": [{"node": crash, "t": t_crash, "dur": (t_p2 + back - t_crash) if back else 0, "rearm": True}],
+                    "slow": [{"src": 1, "dst": 0, "t": 150, "dur": 500, "delay": slow}]},
+            "submits": [{"t": 200, "node": 0, "leader": False}, {"t": 201, "node": 0, "leader": False},
+                        {"t": 600, "node": 0, "leader": True}, {"t": t_d, "node": 0, "leader": True}] + extra}
+
+
+def regain_strategy(tier):
+    return st.builds(make_regain, seed=st.integers(0, 2 ** 16), crash=st.sampled_from([2, 3, 4]), k=st.sampled_from([2, 3, 4]),
+                     t_p1=st.integers(204, 232), heal=st.integers(760, 860), t_crash=st.integers(920, 1000),
+                     t_p2=st.integers(1340, 1395), t_d=st.integers(1396, 1440), slow=st.sampled_from([1500, 1700, 2000]),
+                     fast=st.sampled_from([1, 2, 3, 5]),
+                     extra=st.lists(st.fixed_dictionaries({"t": st.integers(1500, 4000), "node": st.integers(0, 4),
+                                                           "leader": st.just(True)}), max_size=2),
+                     back=st.sampled_from([0, 700, 900, 1100]))
 
 
 # =========================================================================================== liveness obligation
@@ -712,6 +759,15 @@ RULE_SAFETY = (
 
 OBLIGATIONS = [
     Obligation("safety", safety_strategy(True), ex_safety("safety"), {"quick": 2400, "thorough": 60000}, RULE_SAFETY),
+    Obligation("regain", regain_strategy, ex_safety("safety"), {"quick": 320, "thorough": 8000},
+               "DIRECTED family (a jittered hand-designed template, not free exploration; same executor, oracle and signature namespace "
+               "as `safety`): 5 "
+               "nodes, fast network; leader n0 accepts two commands, is partitioned together with n1 whose answers to n0 take "
+               "1.5-2 s; the majority side elects a leader, commits another command, the partition heals (n0's log is overwritten), "
+               "that leader crashes (and may come back later); a second partition leaves whoever leads with one follower while the late answers of n1 arrive. "
+               "Jitter: PRNG seed of the election timeouts, crashed node, partition/crash/submit times, delays. Reaches the state "
+               "'a node leads for the second time while answers to its first leadership are still in flight'. Non-trivial as in "
+               "`safety`; the label stale-ack-delivered-to-leader marks the histories that reach the targeted state"),
     Obligation("liveness", liveness_strategy, ex_liveness, {"quick": 300, "thorough": 12000},
                "fault-free network, delays 1-10 ms, heartbeat 30/50 ms, election timeout >= 100 ms (heartbeat + max delay < "
                "minimum timeout): a client polls until exactly one leader is established (all others followers of it in its "
